@@ -27,8 +27,8 @@ theorem mem_dedup (l : List Id) (y : Id) : y ∈ dedup l ↔ y ∈ l := by
       rw [ih]
 
 /-- the visited list only grows -/
-theorem seen_subset_expand (w : World) (fuel : Nat) : ∀ (seen frontier : List Id) (y : Id),
-    y ∈ seen → y ∈ expand w fuel seen frontier := by
+theorem seen_subset_expand (d : Id → List Id) (fuel : Nat) : ∀ (seen frontier : List Id) (y : Id),
+    y ∈ seen → y ∈ expand d fuel seen frontier := by
   induction fuel with
   | zero => intro seen frontier y h; simpa [expand] using h
   | succ n ih =>
@@ -40,9 +40,9 @@ theorem seen_subset_expand (w : World) (fuel : Nat) : ∀ (seen frontier : List 
     · exact ih _ _ y (List.mem_append_left _ h)
 
 /-- everything the closure visits was already visited, or refers directly to the start or to something visited -/
-theorem expand_sound (w : World) (fuel : Nat) : ∀ (seen frontier : List Id) (y : Id),
-    y ∈ expand w fuel seen frontier →
-    y ∈ seen ∨ ∃ z, (z ∈ frontier ∨ z ∈ expand w fuel seen frontier) ∧ y ∈ directReferrers w z := by
+theorem expand_sound (d : Id → List Id) (fuel : Nat) : ∀ (seen frontier : List Id) (y : Id),
+    y ∈ expand d fuel seen frontier →
+    y ∈ seen ∨ ∃ z, (z ∈ frontier ∨ z ∈ expand d fuel seen frontier) ∧ y ∈ d z := by
   induction fuel with
   | zero => intro seen frontier y h; exact Or.inl (by simpa [expand] using h)
   | succ n ih =>
@@ -68,13 +68,13 @@ theorem expand_sound (w : World) (fuel : Nat) : ∀ (seen frontier : List Id) (y
         obtain ⟨z, hz, hyz⟩ := hex
         refine Or.inr ⟨z, Or.inr ?_, hyz⟩
         cases hz with
-        | inl hz => exact seen_subset_expand w n _ _ z (List.mem_append_right _ hz)
+        | inl hz => exact seen_subset_expand d n _ _ z (List.mem_append_right _ hz)
         | inr hz => exact hz
 
 theorem closure_sound (w : World) (x y : Id) (h : y ∈ closure w x) :
     ∃ z, (z = x ∨ z ∈ closure w x) ∧ y ∈ directReferrers w z := by
   unfold closure at h ⊢
-  cases expand_sound w _ [] [x] y h with
+  cases expand_sound (directReferrers w) _ [] [x] y h with
   | inl h0 => simp at h0
   | inr hex =>
     obtain ⟨z, hz, hyz⟩ := hex
@@ -96,6 +96,56 @@ theorem direct_subset_closure (w : World) (x y : Id) (h : y ∈ directReferrers 
       have hne := List.isEmpty_iff.mp he
       rw [hne] at hy; exact hy
     simp at this
-  · exact seen_subset_expand w _ _ _ y (List.mem_append_right _ hy)
+  · exact seen_subset_expand _ _ _ _ y (List.mem_append_right _ hy)
+
+/-- Two "direct referrers" functions that agree as sets on a class `P` of ids which the first one never leaves give
+the same closure (as a set) from a frontier inside `P`. -/
+theorem expand_congr (d1 d2 : Id → List Id) (P : Id → Prop)
+    (hclosed : ∀ z, P z → ∀ y ∈ d1 z, P y) (heq : ∀ z, P z → ∀ y, y ∈ d1 z ↔ y ∈ d2 z) (fuel : Nat) :
+    ∀ (s1 s2 f1 f2 : List Id), (∀ z ∈ f1, P z) → (∀ y, y ∈ s1 ↔ y ∈ s2) → (∀ y, y ∈ f1 ↔ y ∈ f2) →
+    ∀ y, y ∈ expand d1 fuel s1 f1 ↔ y ∈ expand d2 fuel s2 f2 := by
+  induction fuel with
+  | zero => intro s1 s2 f1 f2 _ hs _ y; simpa [expand] using hs y
+  | succ n ih =>
+    intro s1 s2 f1 f2 hP hs hf y
+    have hnew : ∀ y, y ∈ dedup ((f1.flatMap d1).filter fun y => !s1.contains y) ↔
+        y ∈ dedup ((f2.flatMap d2).filter fun y => !s2.contains y) := by
+      intro y
+      simp only [mem_dedup, List.mem_filter, List.mem_flatMap, Bool.not_eq_true', List.contains_eq_mem,
+        decide_eq_false_iff_not]
+      constructor
+      · rintro ⟨⟨z, hz, hy⟩, hns⟩
+        exact ⟨⟨z, (hf z).mp hz, (heq z (hP z hz) y).mp hy⟩, fun h => hns ((hs y).mpr h)⟩
+      · rintro ⟨⟨z, hz, hy⟩, hns⟩
+        have hz1 := (hf z).mpr hz
+        exact ⟨⟨z, hz1, (heq z (hP z hz1) y).mpr hy⟩, fun h => hns ((hs y).mp h)⟩
+    have hPnew : ∀ z ∈ dedup ((f1.flatMap d1).filter fun y => !s1.contains y), P z := by
+      intro z hz
+      have := (List.mem_filter.mp ((mem_dedup _ _).mp hz)).1
+      obtain ⟨z0, hz0, hzz⟩ := List.mem_flatMap.mp this
+      exact hclosed z0 (hP z0 hz0) z hzz
+    have hemp : (dedup ((f1.flatMap d1).filter fun y => !s1.contains y)).isEmpty =
+        (dedup ((f2.flatMap d2).filter fun y => !s2.contains y)).isEmpty := by
+      generalize dedup ((f1.flatMap d1).filter fun y => !s1.contains y) = n1 at hnew
+      generalize dedup ((f2.flatMap d2).filter fun y => !s2.contains y) = n2 at hnew
+      cases n1 with
+      | nil =>
+        cases n2 with
+        | nil => rfl
+        | cons b t => have := (hnew b).mpr (by simp); simp at this
+      | cons a t =>
+        cases n2 with
+        | nil => have := (hnew a).mp (by simp); simp at this
+        | cons b t' => rfl
+    unfold expand
+    simp only
+    rw [← hemp]
+    split
+    · exact hs y
+    · apply ih _ _ _ _ hPnew
+      · intro y
+        simp only [List.mem_append]
+        rw [hs y, hnew y]
+      · exact hnew
 
 end B6.Lemmas.WorldRead
